@@ -41,7 +41,8 @@ MANIFEST = {
             "with it on every id used). Modelled, not verified: what each component API writes (the model records one row per low-level "
             "write; high-level task calls are covered by the oracle only); in-process isolation is only observed (dictionaries keyed by "
             "the exact id string), not modelled. Known findings: LIKE-based purge reaches look-alike ids (repair proposed in "
-            "proposed_fixes/C17-purge-structural-match.diff); 8-hex-digit hash collisions share all tables (no small repair).",
+            "proposed_fixes/C17-purge-structural-match.diff); ids whose sanitised text begins with 'sqlite' name tables SQLite reserves "
+            "(repair in proposed_fixes/C17-reserved-sqlite-prefix.diff); 8-hex-digit hash collisions share all tables (no small repair).",
     "design_ref": "DESIGN.md §6 C17",
 }
 
@@ -159,7 +160,7 @@ def run_names(ctx: Ctx, vocab) -> list[str]:
     gen_guard(ctx)
     ctx.log(f"names: {len(ids)} ids compared")
     ctx.count(len(ids) + len(full), len(ids))
-    ctx.notes["names"] = {"ids": len(ids), "full_table_lists_compared": len(full), "id_classes": classes,
+    ctx.notes["names"] = {"ids": len(ids), "prefixes_reserved_by_sqlite": sorted(i for i in ids if sanitize_table_prefix(i).lower().startswith("sqlite_"))[:8], "full_table_lists_compared": len(full), "id_classes": classes,
                           "non_identifier_prefixes": n_bad, "distinct_prefixes": len(by_prefix)}
     ctx.sample({"id": "x'; DROP TABLE y; --", "prefix": sanitize_table_prefix("x'; DROP TABLE y; --")})
     return ids
@@ -398,7 +399,8 @@ def run_case(ctx: Ctx, scratch: str, kind: str, ids: list[str], ops: list, vocab
         replay = {"kind": "apps", "backend": kind, "ids": ids, "ops": ops}
         for k, e in enumerate(apps.errors):
             if e:
-                ctx.violation(f"app-construction:{kind}", f"app with id {ids[k]!r} cannot be built on {kind}: {e}", replay)
+                key = "reserved-name:sqlite_" if "reserved for internal use" in e else f"app-construction:{kind}"
+                ctx.violation(key, f"app with id {ids[k]!r} cannot be built on {kind}: {e}", replay)
                 return None
         expected_master = None
         if kind == "sqlite":
@@ -451,12 +453,14 @@ def gen_cases(ctx: Ctx, ids: list[str], vocab):
         (["x", sp("x") + "__broker_zzz"], [["write", 1, "broker"], ["write", 1, "client"], ["purge", 0, "broker"]]),
         (["a_b", (sp("a_b") + "__BROKER_q").replace("a_b", "aXb", 1)], [["write", 1, "broker"], ["purge", 0, "broker"]]),
         ([COL_A, COL_B], [["write", 0, "client"], ["rewrite", 1], ["rewrite", 0]]),
+        (["app", "sqlite"], [["write", 0, "client"]]),
+        (["SQLite-x", "sqlite_master"], [["write", 0, "client"]]),
         (["my-app", "my_app", "My-App"], [["call", 0], ["call", 1], ["rewrite", 0], ["rewrite", 1], ["purge_all", 0], ["call", 2], ["purge_all", 2]]),
         (["x'; DROP TABLE y; --", "a\"b", "a;b"], [["call", 0], ["write", 1, "trg"], ["purge", 0, "state_backend"], ["purge_all", 1]]),
         (["a%b", "a_b", "aXb"], [["write", 1, "client"], ["write", 2, "client"], ["purge", 0, "client"], ["purge_all", 1]]),
     ]
     families = []
-    pool = [i for i in ids if usable(i)]
+    pool = [i for i in ids if usable(i) and not sp(i).lower().startswith("sqlite_")]     # those: the two fixed cases above
     look = [i for i in pool if "__" in i and re.search(r"_[0-9a-fA-F]{8}_", i)]
     for _ in range(10_000):
         r = rng.random()
@@ -630,6 +634,7 @@ def main(ctx: Ctx) -> int:
         world.rm_scratch(scratch)
     del ctx.notes["_gen_text"]
     ctx.notes["purge_rule_of_this_tree"] = info.get("purge", "unknown (translator degraded)")
+    ctx.notes["reserved_name_rule_in_tree"] = info.get("reserved_guard", "unknown (translator degraded)")
     ctx.assumptions += [
         "ids are Python str without lone surrogates (str.encode() rejects those before any table is named)",
         "str.isdigit() is modelled as ASCII 0-9: after the regex only ASCII survives (proved for the generated class)",
